@@ -9,7 +9,7 @@
  C16.swap     swapBytes reverses exactly sizeof(T) bytes
 """
 import os
-import ir, q, bounded, bits
+import ir, q, bounded, bits, cfg as cfgm
 from ir import strip, strip_lv, const_val, T, pe, walk_expr, fn_exprs, AnalysisBroken
 from core import fwhere
 
@@ -124,6 +124,9 @@ def run(ctx):
                               'raw transfer of %s objects (%d bytes each) with byte count `%s` that has no sizeof(%s) factor: '
                               'elements are counted as bytes (instantiation %s)' % (pty, psz, pe(size), pty, f['q']))
     ctx.floor('R-UNITS', n_sites, 40)
+
+    # ---------------------------------------------------------------- C16.layer
+    ctx.floor('C16.layer File members', check_file_layer(ctx, prog), 2)
 
     # ---------------------------------------------------------------- scalar writers / readers
     n_scalar = 0
@@ -817,6 +820,52 @@ def abs_reader(ctx, prog, f, k, orders):
                 ctx.violation('C16.reader', f['pq'], role, fwhere(f), 'with byte order %s the buffered bytes %s are read as 0x%x, expected 0x%x' % (
                     name, absim.hexs(vals, 8), got[0] & ((1 << (8 * k)) - 1) if isinstance(got[0], int) else 0, want[0]))
     return True
+
+
+STDIO_OUT = ('fwrite', 'fputc', 'fputs', 'fprintf', 'vfprintf', 'putc', 'fputwc')
+STDIO_IN = ('fread', 'fgetc', 'fgets', 'getc', 'ungetc', 'fscanf')
+RAW_IO = ('write', 'read', 'pwrite', 'pread', 'writev', 'readv', '_write', '_read', 'WriteFile', 'ReadFile')
+
+
+def check_file_layer(ctx, prog):
+    """C16.layer: File keeps its bytes in a stdio stream.  Values written one after the other reach the file in that order only
+    if they all go through the stream's buffer: a member that writes a block with write(2) on the stream's descriptor while
+    earlier bytes are still in the buffer puts the block *before* them (same length, permuted bytes); a raw read skips bytes
+    the stream has already buffered.  For every member of File: a raw transfer on the descriptor is reached only after the
+    stream was flushed (output) / must not occur at all (input, the read-ahead cannot be given back)."""
+    n = 0
+    for f in prog.functions:
+        if f.get('clsp') != 'asl::File' or not f.get('body') or f.get('implicit'):
+            continue
+        calls = [e for e in fn_exprs(f) if e.get('k') == 'call' and not e.get('clsp')]
+        names = [(e.get('fn') or '').lstrip(':') for e in calls]
+        if not any(x in STDIO_OUT + STDIO_IN + RAW_IO for x in names):
+            continue
+        n += 1
+        ctx.analysed(f)
+        role = '%s%s:bytes go through the stdio stream in the order written' % (f['n'], f.get('sig') or '')
+        raws = [e for e in calls if (e.get('fn') or '').lstrip(':') in RAW_IO]
+        if not raws:
+            ctx.ok('C16.layer', f['pq'], role, fwhere(f), 'stdio transfers only, no raw transfer on the descriptor')
+            continue
+        bad = []
+        cfg = cfgm.CFG(f)
+
+        def step(nd, st):
+            if nd.kind == 'ev' and nd.e is not None and nd.e.get('k') == 'call' and not nd.e.get('clsp'):
+                nm = (nd.e.get('fn') or '').lstrip(':')
+                if nm == 'fflush':
+                    return True
+                if nm in STDIO_OUT:
+                    return False
+                if nm in RAW_IO:
+                    if nm in ('read', 'pread', 'readv', '_read', 'ReadFile') or not st:
+                        bad.append(nd.e)
+            return st
+        cfgm.dataflow(cfg, False, step)
+        ctx.check(not bad, 'C16.layer', f['pq'], role, fwhere(f, bad[0].get('l') if bad else None), 'every raw write on the descriptor follows a flush of the stream',
+                  '%s transfers bytes with `%s` on the descriptor of the stdio stream without flushing the stream first: bytes written earlier through the buffer reach the file *after* this block (values written in sequence are read back permuted)' % (f['pq'], pe(bad[0]) if bad else ''))
+    return n
 
 
 def check_reader(ctx, prog, other_val):
